@@ -462,7 +462,9 @@ REQUIRED = (
        "nested_body_size:32768-65535", "ctor_int_arg:max", "ctor_arg:out-of-domain", "foreign_datagram",
        "serializer_api:name", "serializer_api:class", "serializer_api:class-list", "golden:old_wire",
        "golden:frozen_layout", "embedding:nested", "embedding:listed", "offset:0", "offset:23+", "address:domain",
-       "model:ezunpack:auth:ok", "model:ezunpack:noauth:ok", "framed:signed:key-with-trailing-bytes:*",
+       "model:ezunpack:auth:ok", "model:ezunpack:noauth:ok",
+       "framed_entry:ezr_pack:signed", "framed_entry:ezr_pack:unsigned", "framed_entry:_ez_senda:signed",
+       "framed_entry:_ez_senda:unsigned", "framed_entry:ez_send:signed", "framed_entry:ez_send:unsigned", "framed:signed:key-with-trailing-bytes:*",
        "framed:signed:key-canonical:*", "history:key-seen-before-with-other-address-family",
        "history:key-seen-before-same-family"])
 
@@ -2167,6 +2169,58 @@ class Run:
                     atok = f"untokenizable:{type(e).__name__}"
                 self.model(f"ezunpack {siglen if signed else '-'} {hx(packet)} ipv8.messaging.payload_headers.GlobalTimeDistributionPayload "
                            f"{p['name']}", f"ok {hx(bytes(results[0][1])) if signed else '-'} L(R(n{results[0][2]}),{atok})", rep)
+                # --- the public entry points: ezr_pack / _ez_senda / ez_send with sig=True|False must put exactly the frame of the
+                #     requested kind on the wire (signed: own canonical key in front, signature behind; unsigned: neither)
+                entry = rng.choice(["ezr_pack", "_ez_senda", "ez_send"])
+                esig = rng.random() < 0.5
+                ctx.count(f"framed_entry:{entry}:{'signed' if esig else 'unsigned'}")
+                erep = {**rep, "entry_point": entry, "sig": esig}
+                sent = []
+                real_send = sender.endpoint.send
+                sender.endpoint.send = lambda a_, d_: sent.append(d_)
+                try:
+                    if entry == "ezr_pack":
+                        pkt = sender.ezr_pack(p["msg_id"], dist, obj, sig=esig)
+                    elif entry == "_ez_senda":
+                        sender._ez_senda(receiver.my_peer.address, dist, obj, sig=esig)
+                        pkt = sent[-1]
+                    else:
+                        sender.ez_send(receiver.my_peer, dist, obj, sig=esig)
+                        pkt = sent[-1]
+                except Exception as e:
+                    ctx.oracle_fail(f"EZPackOverlay.{entry}:raises", f"{entry}(…, sig={esig}) of a {cn} raises {type(e).__name__}: {e}", erep)
+                    continue
+                finally:
+                    sender.endpoint.send = real_send
+                esl = default_eccrypto.get_signature_length(pub) if esig else 0
+                want = head + ((len(canonical).to_bytes(2, "big") + canonical) if esig else b"") + gt.to_bytes(8, "big") + (gold_msg or b"")
+                erep["packet"] = pkt.hex()[:1200]
+                if gold_msg is not None and (len(pkt) != len(want) + esl or pkt[:len(pkt) - esl] != want):
+                    ctx.oracle_fail(f"EZPackOverlay.{entry}:doc-bytes", f"{entry}(…, sig={esig}) puts {len(pkt)} bytes {pkt[:40].hex()}… on the "
+                                    f"wire; the {'signed' if esig else 'unsigned'} frame of this {cn} is {len(want) + esl} bytes "
+                                    f"{want[:40].hex()}…" + (" + signature" if esig else ""), erep)
+                try:
+                    if esig:
+                        _, d2, m2 = receiver._ez_unpack_auth(cls, pkt)
+                    else:
+                        from ipv8.lazy_community import lazy_wrapper_unsigned
+                        box2 = []
+                        lazy_wrapper_unsigned(GlobalTimeDistributionPayload, cls)(
+                            lambda self_, addr_, d_, m_: box2.append((d_, m_)))(receiver, sender.my_peer.address, pkt)
+                        d2, m2 = box2[0]
+                    if d2.global_time != gt:
+                        ctx.oracle_fail(f"EZPackOverlay.{entry}:field-global_time", f"global time {gt} sent with {entry}(sig={esig}) decodes "
+                                        f"as {d2.global_time}", erep)
+                    self.compare_fields(cn, p, obj, m2, names, erep, f"framed:{entry}:sig={esig}")
+                    try:
+                        atok2 = self.attr_tokens(p, m2, names)
+                    except Exception as e:
+                        atok2 = f"untokenizable:{type(e).__name__}"
+                    self.model(f"ezunpack {esl if esig else '-'} {hx(pkt)} ipv8.messaging.payload_headers.GlobalTimeDistributionPayload "
+                               f"{p['name']}", f"ok {hx(canonical) if esig else '-'} L(R(n{d2.global_time}),{atok2})", erep)
+                except Exception as e:
+                    ctx.oracle_fail(f"EZPackOverlay.{entry}:receiver-raises", f"what {entry}(…, sig={esig}) sent for a {cn} cannot be decoded by "
+                                    f"the {'signed' if esig else 'unsigned'} receiver: {type(e).__name__}: {e}", erep)
                 ctx.case(("framed", idx), True)
             for a, b in pairs.values():
                 await a.unload()
